@@ -162,7 +162,7 @@ theorem reorgPath_correct {U m} (h : Inv U m) {a b : Nat}
       reorgPath U m a b none =
         .ok ((List.range na).map (fun k => anc U k a), ((List.range nb).map (fun k => anc U k b)).reverse) ∧
       anc U na a = anc U nb b :=
-  reorgPath_spec h.s ha hb
+  reorgPath_spec h.s.core ha hb
 
 /-! ### non-vacuity: a concrete universe with a fork, an invalid block and a failed reorg -/
 
